@@ -182,3 +182,17 @@ Section StypeWiseForward.
         end in
     fold_left step (tf_stypes feat_dict) (Some ([], [])).
 End StypeWiseForward.
+
+(* the stype each built-in encoder class is documented for (LinearModelEncoder wraps
+   user models and is documented for every parent stype with a tensor representation) *)
+Definition documented_stypes (e : encoder_class) : list stype :=
+  match e with
+  | enc_EmbeddingEncoder => [st_categorical]
+  | enc_MultiCategoricalEmbeddingEncoder => [st_multicategorical]
+  | enc_LinearEncoder | enc_StackEncoder | enc_LinearBucketEncoder | enc_LinearPeriodicEncoder
+  | enc_ExcelFormerEncoder => [st_numerical]
+  | enc_LinearEmbeddingEncoder => [st_embedding]
+  | enc_TimestampEncoder => [st_timestamp]
+  | enc_LinearModelEncoder =>
+      [st_numerical; st_categorical; st_text_embedded; st_text_tokenized; st_multicategorical; st_timestamp; st_embedding]
+  end.
